@@ -120,7 +120,12 @@ def scenarios(draw):
                 for i, n in enumerate(kids):
                     if n[0] == "elem" and n[1] is el:
                         if i + 1 >= len(kids) or kids[i + 1][0] != "text":
-                            kids.insert(i + 1, ["text", [["lit", " . "]]])
+                            # (... and shows whether a global definition made
+                            # by the filler is in force for the rest of the
+                            # macro)
+                            kids.insert(i + 1, ["text", [
+                                ["lit", " . "], ["interp", ["pipe", [
+                                    ["var", "g0"], ["const", "'nog'"]]]]]])
         # the body of a later macro may itself use an earlier macro (no
         # fillers): what its caller offers must not reach that inner macro
         nested = None
@@ -167,6 +172,10 @@ def scenarios(draw):
                 ctx.n_elems = 0
                 f = tstrat.element(ctx, 1)
                 strip_root(f)
+                if draw(st.integers(0, 3)) == 0:
+                    # the filler defines a global variable
+                    f["stmts"]["define"] = [["global", ["g0"], [
+                        "const", "'F%d'" % u]]]
                 fills[s] = f
         unknown = []
         pending = None
